@@ -129,6 +129,7 @@ def run(ctx, rep):
         ("libwild::file_writer::SizedOutput::flush", "libwild::fs::make_executable"): "best effort (pipes etc.)",
         ("libwild::file_writer::Output::set_size::{closure}::{closure}", "std::fs::remove_file"): "background delete of the renamed old output",
         ("libwild::file_writer::delete_old_output", "std::fs::remove_file"): "old output may not exist",
+        ("<libwild::file_writer::Output as std::ops::Drop>::drop", "std::fs::remove_file"): "cleanup after a failed link: the exit status is already non-zero",
         ("libwild::file_writer::Output::set_size::{closure}", "std::sync::mpsc::Sender::send"): "receiver gone means the link already failed",
     }
     n_calls = 0
